@@ -45,6 +45,12 @@ VARIANTS = {
     "fast": ["-O2", "-D" + GUARD, "-DTEST_BUILD"],
 }
 
+# coverage survey (tools/coverage.sh): VERIF_COV=<dir> adds source-based coverage to every variant and collects profiles in <dir>;
+# never set by a registered check - it is a development aid for finding code that no check reaches
+if os.environ.get("VERIF_COV"):
+    for _k in VARIANTS:
+        VARIANTS[_k] = VARIANTS[_k] + ["-fprofile-instr-generate", "-fcoverage-mapping"]
+
 FALLBACK_CONFIG_H = """#define PACKAGE_NAME "Lhasa"
 #define PACKAGE_STRING "Lhasa 0.4.0"
 #define PACKAGE_VERSION "0.4.0"
@@ -157,7 +163,7 @@ def build_lib(variant="san", shim=False):
     r = sh(["ar", "rcs", tmp] + objs, capture_output=True)
     if r.returncode != 0:
         raise HarnessError("ar failed: " + r.stderr.decode())
-    link = ["clang"] + [f for f in flags if f.startswith("-fsanitize") or f in ("-g",)]
+    link = ["clang"] + [f for f in flags if f.startswith("-fsanitize") or f.startswith("-fprofile") or f in ("-g",)]
     extra = []
     if shim:
         so = os.path.join(od, "alloc_shim.o")
@@ -218,6 +224,8 @@ SAN_ENV = {"ASAN_OPTIONS": "detect_leaks=0:abort_on_error=0:exitcode=97:allocato
 def run_env(**kw):
     e = dict(os.environ)
     e.update(SAN_ENV)
+    if os.environ.get("VERIF_COV"):
+        e["LLVM_PROFILE_FILE"] = os.path.join(os.environ["VERIF_COV"], "cov-%8m.profraw")
     e.update(kw)
     return e
 
